@@ -271,6 +271,49 @@ pub fn run(cli: &Cli, rep: &Report) {
                     Ok(Err(e)) => mk("rejected-valid", format!("valid multi-member file rejected: {:?}: {}", e.kind(), mc_core::run::normalise(&e.to_string())), e.to_string()),
                 }
             }
+            // the multi-threaded reader over the same member sequence (seekable source; 1 and 2 workers; destination
+            // buffers of 4096 bytes and of 1 byte; read is called again after it has returned 0)
+            for (workers, bs) in [(1u32, 4096usize), (2, 4096), (2, 1)] {
+                if bs == 1 && content.len() > 6000 {
+                    continue;
+                }
+                let desc = || format!("C12|lzipmt|{}|w{}|buf{}", seq.iter().map(|i| lp[*i].name.clone()).collect::<Vec<_>>().join("+"), workers, bs);
+                if !cli.selected_with(desc) {
+                    continue;
+                }
+                st.0 += 1;
+                let r = catch(|| {
+                    let mut rd = lzma_rust2::LZIPReaderMT::new(std::io::Cursor::new(file.as_slice()), workers)?;
+                    let mut out = vec![];
+                    let mut buf = vec![0u8; bs];
+                    loop {
+                        let n = rd.read(&mut buf)?;
+                        if n == 0 {
+                            break;
+                        }
+                        out.extend_from_slice(&buf[..n]);
+                    }
+                    let again = rd.read(&mut buf)?;
+                    Ok::<_, std::io::Error>((out, again, rd.member_count()))
+                });
+                let mk = |kind: &str, site: String, detail: String| {
+                    rep.violation(Violation::new(kind, site, desc()).attr("family", "lzip-mt").attr("streams", if seq.len() == 1 { "1" } else { "many" }).detail(detail));
+                };
+                match r {
+                    Err(p) => mk("panic", p.site(), p.msg),
+                    Ok(Ok((out, again, _))) if out == content && again == 0 => {
+                        if seq.len() >= 2 {
+                            st.1.push(hash_desc(&desc()));
+                        }
+                    }
+                    Ok(Ok((out, again, _))) => mk(
+                        "wrong-bytes",
+                        "LZIPReaderMT: members decode to something else than the concatenated contents".into(),
+                        format!("got {} want {}; a read after the end returned {} bytes", out.len(), content.len(), again),
+                    ),
+                    Ok(Err(e)) => mk("rejected-valid", format!("LZIPReaderMT rejects a valid multi-member file: {:?}: {}", e.kind(), mc_core::run::normalise(&e.to_string())), e.to_string()),
+                }
+            }
         },
         |st| {
             rep.add_many(&[("evaluations", st.0), ("lzip_files", st.0)]);
